@@ -957,8 +957,9 @@ class InlineCall(StrCompareMixin, pmbl.CallWithKwargs):
 
     def __hash__(self):
         # A custom `__hash__` function to protect us from unhashasble
-        # dicts that `pmbl.CallWithKwargs` uses internally
-        return hash(self.__getinitargs__())
+        # dicts that `pmbl.CallWithKwargs` uses internally; it has to agree
+        # with the case-insensitive string comparison used for equality
+        return StrCompareMixin.__hash__(self)
 
     @property
     def name(self):
